@@ -31,6 +31,7 @@ type Client struct {
 	UndecodableFromProxy []string
 	Unsolicited          []string
 	ProxyID              int  // which proxy instance it is connected to
+	TolerateGarbage      bool // the scenario judges undecodable bytes itself (C13, C17)
 	Hostile              bool // sends mutated frames: replies cannot be attributed
 	LowestFree           bool // stream policy: always reuse the lowest free id (immediate reuse)
 }
@@ -81,6 +82,11 @@ func (c *Client) OnData(l *simnet.Link, b []byte) {
 			rep.Err = err.Error()
 			c.UndecodableFromProxy = append(c.UndecodableFromProxy, fmt.Sprintf("%v: %x", err, raw[:min(len(raw), 32)]))
 			w.Logf("%s: undecodable frame from proxy: %v", c, err)
+			if !c.Hostile && !c.TolerateGarbage {
+				// a well-behaved client was sent bytes that are not a frame of its protocol version
+				// and compression
+				w.Violate("client-stream", "client-received-undecodable-bytes", fmt.Sprintf("%s (%s, compression %q) received bytes the reference codec cannot decode: %v", c, versionName(c.Version), c.Compression, err))
+			}
 			continue
 		}
 		rep.Frame = frm
